@@ -134,7 +134,7 @@ impl ScriptTemplate {
     }
 
     pub fn from_asm_string_impl(asm: &str) -> Result<ScriptTemplate, ScriptTemplateErrors> {
-        let tokens: Result<Vec<_>, _> = asm.split(' ').map(ScriptTemplate::map_string_to_match_token).collect();
+        let tokens: Result<Vec<_>, _> = asm.split(' ').filter(|x| !x.trim().is_empty()).map(ScriptTemplate::map_string_to_match_token).collect();
 
         Ok(ScriptTemplate(tokens?))
     }
